@@ -204,6 +204,9 @@ _OB = {
     "ob_mut_vec_failed_grow": (["C07", "C15", "C10"], ["mut_bump_vec::MutBumpVec::{try_push,try_reserve,generic_grow_amortized,generic_grow_to,into_slice}", "raw_bump::RawBump::{prepare_slice_allocation,prepare_allocation_range,in_another_chunk}", "traits::BumpAllocatorCore::allocate_prepared (BumpScope)"],
                                "a reservation that fails (no chunk fits, base allocator refuses) after the slow path looked at a cached later chunk: length and contents unchanged, current chunk unchanged, into_slice still yields the elements inside allocated memory, allocated bytes account for the slice, wf; a reservation that succeeds in the later chunk keeps the elements",
                                "K=2 (48+112 bytes), element u8, <=2 pushes, reserve <=400"),
+    "ob_prepared_slice_dyn": (["C15", "C17", "C01"], ["traits::bump_allocator_typed::for_trait_object::{prepare_slice_allocation,allocate_prepared_slice,prepare_slice_allocation_rev,allocate_prepared_slice_rev}", "traits::BumpAllocatorCore::{prepare_allocation,allocate_prepared,prepare_allocation_rev,allocate_prepared_rev} (BumpScope)"],
+                              "the same prepare/fill/commit contract as ob_prepared_slice through `dyn BumpAllocatorCore` (generic commit path); since both entry points satisfy the same functional postcondition they are interchangeable",
+                              "one chunk of 48 bytes, T=u16, cap request <=3, len<=cap"),
     "ob_second_claim_panics": (["C14"], ["raw_bump::RawBump::claim"], "a second claim does not return (panics)", "should_panic harness"),
     "ob_claim_guard": (["C14", "C10"], ["bump_claim_guard::BumpClaimGuard::{new,deref,deref_mut,drop}", "traits::BumpAllocatorScope::claim"],
                        "while the guard lives the original is claimed and fails; allocations through the guard stay live; a scope opened through the guard is fully undone; after drop the original is unclaimed and continues on a real chunk; wf",
